@@ -602,7 +602,77 @@ class Plugin:
                 if cl not in seen:
                     seen.add(cl)
                     found.append((cl, case, obs, f"impl-search case {j}"))
+        if not found:
+            bad = self._overlap_probe(rng, 300 if tier == "thorough" else 40)
+            if bad:
+                found.append(bad)
         return found, n
+
+    def _overlap_probe(self, rng, rounds):
+        """Two requests overlapping on ONE AiohttpSessionRequester (the model's histories are single requests): each must
+        still make at most three attempts, return its own first successful exchange and otherwise raise after exactly
+        three connection-level failures.  Implementation-only, never part of a theorem."""
+        import async_upnp_client.aiohttp as impl
+        from aiohttp import ServerDisconnectedError
+        from async_upnp_client.exceptions import UpnpCommunicationError
+
+        class Sess:
+            def __init__(self, scripts):
+                self.scripts, self.count = scripts, {}
+
+            def request(self, method, url, **kw):            # noqa: ARG002
+                k = self.count.get(url, 0)
+                self.count[url] = k + 1
+                sc = self.scripts[url]
+                o = sc[k] if k < len(sc) else "fail"
+                sess = self
+
+                class Ctx:
+                    async def __aenter__(self_inner):        # noqa: N805
+                        await asyncio.sleep(0)
+                        if o == "fail":
+                            raise ServerDisconnectedError()
+                        await asyncio.sleep(0)
+                        return FakeResponse(sess, ["resp", 200, [["X-Url", url], ["X-Try", str(k)]], f"{url}#{k}".encode().hex(), "utf-8"], None)
+
+                    async def __aexit__(self_inner, *a):     # noqa: N805
+                        return False
+                return Ctx()
+        if Plugin._loop is None or Plugin._loop.is_closed():
+            Plugin._loop = asyncio.new_event_loop()
+        loop = Plugin._loop
+        for _ in range(rounds):
+            urls = ["http://a.example/x", "http://b.example/y"]
+            scripts = {u: [rng.choice(["fail", "fail", "ok"]) for _ in range(3)] for u in urls}
+            sess = Sess(scripts)
+            req = impl.AiohttpSessionRequester(sess, with_sleep=False)
+
+            async def one(u, delay):
+                for _ in range(delay):
+                    await asyncio.sleep(0)
+                try:
+                    return ["ret", (await req.async_http_request("GET", u))[2]]
+                except UpnpCommunicationError:
+                    return ["comm"]
+                except BaseException as e:  # noqa: BLE001
+                    return ["other", type(e).__name__]
+
+            async def both():
+                return await asyncio.wait_for(asyncio.gather(one(urls[0], 0), one(urls[1], rng.randint(0, 5))), 20)
+            try:
+                res = loop.run_until_complete(both())
+            except BaseException as e:  # noqa: BLE001
+                res = [["other", type(e).__name__]] * 2
+            for u, r in zip(urls, res):
+                sc = scripts[u]
+                first_ok = sc.index("ok") if "ok" in sc else None
+                want = ["ret", f"{u}#{first_ok}"] if first_ok is not None else ["comm"]
+                want_tries = first_ok + 1 if first_ok is not None else 3
+                if r != want or sess.count.get(u, 0) != want_tries:
+                    return ("attempts_le_3", {"overlapping_requests": scripts}, {"url": u, "result": r, "attempts": sess.count.get(u, 0),
+                                                                                 "expected": want, "expected_attempts": want_tries},
+                            "impl-search: two requests overlapping on one session requester do not each get their own three attempts")
+        return None
 
     # ------------------------------------------------------------------ printers
     @staticmethod
